@@ -16,6 +16,8 @@ var branchSets = [][]string{
 	{"", "", "", ""},
 	{"└─", "  ", "├─", "│ "},
 	{"`", ".", "+", ":"},
+	{"L", "", "M", "|||"},
+	{"└", "·", "├", "│──"},
 }
 
 var extSets = [][]string{nil, {".go"}, {".txt", ".md"}, {"Makefile"}, {"go", ".go"}, {""}}
@@ -26,7 +28,7 @@ func genOp(c *Ctx, massive bool) Op {
 	switch c.Pick(5, 2, 2, 1, 2, 3, 3, 2, 1) {
 	case 0:
 		op.Kind = "output"
-		op.Branch = branchSets[c.Pick(4, 1, 1, 1, 1)]
+		op.Branch = branchSets[c.Pick(4, 1, 1, 1, 1, 1, 1)]
 	case 1:
 		op.Kind, op.Encode = "output", 1
 	case 2:
@@ -38,7 +40,7 @@ func genOp(c *Ctx, massive bool) Op {
 		op.Exts = extSets[c.Draw(len(extSets))]
 	case 5:
 		op.Kind = "walk"
-		op.Branch = branchSets[c.Pick(4, 1, 1, 1, 1)]
+		op.Branch = branchSets[c.Pick(4, 1, 1, 1, 1, 1, 1)]
 	case 6:
 		op.Kind = "mkdir"
 		op.Exts = extSets[c.Draw(len(extSets))]
@@ -318,6 +320,10 @@ func caseC10(c *Ctx) {
 		}
 		return e
 	}
+	if simple.Kind == "output" && !simple.FromRoot && c.Chance(1, 6) {
+		simple.NoIter = true // the other simple-mode path (slices instead of iterators)
+		c.st.Count("reference:simple/noiter")
+	}
 	d1 := s.prepareTarget(c, 1)
 	ref := c.Direct(simple, mk(d1))
 	refSnap := targetSnap(d1)
@@ -442,6 +448,7 @@ func genFaultPlan(c *Ctx, op Op, docLen int, allowNone bool) *faultPlan {
 			f.kinds = append(f.kinds, "writer")
 		case 5:
 			f.cb.FailAt = c.Draw(10)
+			f.cb.Sticky = c.Draw(2) == 1
 			f.kinds = append(f.kinds, "callback")
 		case 6:
 			f.diskAt = c.Draw(14)
@@ -551,13 +558,20 @@ func caseC11(c *Ctx) {
 func judgeC11(c *Ctx, s *massiveScenario, arm, ctxMode string, ref *Outcome, refSnap string, got *Outcome, gotSnap string, trees []*MNode, maxSteps int) {
 	cls := strings.Join(s.classes(), "+")
 	if ps := firstPanicSig(got); ps != "" {
-		// a crash is C12's verdict; C11 only notes it (the run's remaining observations
-		// are those of a process that would have died)
+		if got.ReaderFired || got.WriterFired || got.CbFired || got.DiskFired > 0 || got.CancelFired {
+			// the property covers failing readers, writers and callbacks and cancellation: a crash
+			// under one of them is not "returns"
+			c.Failf("C11:panic-under-fault:"+ps, "massive %s panicked in task %s while a fault was being injected (reader=%v writer=%v callback=%v disk=%d cancel=%v): %s", s.op, got.Panics[0].Task, got.ReaderFired, got.WriterFired, got.CbFired, got.DiskFired, got.CancelFired, got.Panics[0].Value)
+		}
+		// a crash caused by the input alone is C12's verdict
 		c.st.Count("panic-seen(not judged here)")
 		return
 	}
 	if got.StepCap {
 		c.Failf("C11:livelock:"+s.op.Kind, "step cap (%d) exceeded: the call does not terminate under this schedule", maxSteps)
+	}
+	if ctxMode == "pre" && got.Returned && got.Err == nil {
+		c.Failf("C11:precancelled-but-nil:"+s.op.Kind, "%s was called with an already cancelled context and returned nil", s.op)
 	}
 	if got.Hang {
 		c.Failf("C11:hang:"+leakOrCallerSite(got), "the call never returned; at final quiescence:\n%s", hangDetail(got))
